@@ -87,8 +87,18 @@ let do_npaccept (txt : string) : string =
      | _ -> "REJECT")
   | _ -> "PARSE-ERR"
 
+(* npcfree: the premises of determinism_np_cfree: closed and contraction-free source *)
+let do_npcfree (txt : string) : string =
+  match parse_string (explode txt) with
+  | POk p ->
+    (match typecheck p with
+     | Accept p' -> if in_fragment_b p' && cfree_src_b p then "CF-IN" else "CF-OUT"
+     | _ -> "REJECT")
+  | _ -> "PARSE-ERR"
+
 let () =
   register "fjclass" do_fjclass;
+  register "npcfree" do_npcfree;
   register "npaccept" do_npaccept;
   register "allaccept" do_allaccept;
   register "coreaccept" do_coreaccept;
